@@ -1001,6 +1001,20 @@ def cli_option_stream(chk, rng, stats):
                 chk.oracle_fail("alias N=%r in %r with options %r: status/names %r, the pattern written in place gives %r" % (
                     body, host, flags, (got[0], sorted(got[1].values())[:4]), (want[0], sorted(want[1].values())[:4])),
                     {"alias": body, "host": host, "options": flags})
+    # acyclic chains of aliases, deeper than anyone would write by hand: A1 = %A2(), ..., Ak = P
+    for depth in (2, 9, 12, 25):
+        body = "%Upper{%Base()}-%Count(start=3)"
+        al = []
+        for i in range(1, depth):
+            al += ["-a", "A%d=%%A%d()" % (i, i + 1)]
+        al += ["-a", "A%d=%s" % (depth, body)]
+        want = run(["-r", "-s", "%Name()", "--", "pre_" + body + "%Ext()"])
+        got = run(["-r", "-s", "%Name()"] + al + ["--", "pre_%A1()%Ext()"])
+        n += 1
+        chk.count(("alias-chain", depth))
+        if got != want:
+            chk.oracle_fail("a chain of %d aliases: status/names %r, the pattern written in place gives %r" % (
+                depth, (got[0], sorted(got[1].values())[:4]), (want[0], sorted(want[1].values())[:4])), {"alias_chain_depth": depth, "pattern": body})
     stats["cli_option_runs"] = n
 
 
